@@ -10,6 +10,10 @@ def run(tier, seed):
     cg = callgraph.CallGraph(prog)
     n = statics.check_statics(rep, prog, cg)
     rep.analysed['non-const static-storage variables'] = n
+    groots = cg.keys_of('bxdecay0::decay0_generator::shoot') + cg.keys_of('bxdecay0::genbbsub') + \
+        cg.keys_of('bxdecay0::dbd_gA::shoot') + cg.keys_of('bxdecay0::momentum_direction_lock_event_op::operator()')
+    nfz = statics.check_frozen_inputs(rep, prog, cg, groots)
+    rep.floor('STATICS.frozen-input', nfz, 20)
     rep.analysed['functions'] = len(prog.functions)
     rep.rule('GLOBAL-EFFECT.locked', 'every call that changes process-wide state (GSL error handler, environment, locale, '
              'signal handlers, C random seed) lies in the scope of a lock on one static mutex taken earlier in the same function')
